@@ -33,6 +33,15 @@ CODE_TO_EXC = {
 ALL_CODES = sorted(CODE_TO_EXC)
 
 
+def client_method(client, rpc):
+    """Bound client method for an RPC (keyword-named RPCs carry one trailing underscore)."""
+    n = snake(rpc)
+    fn = getattr(client, n, None)
+    if fn is None:
+        fn = getattr(client, n + "_")
+    return fn
+
+
 def to_bytes(resp):
     """Serialized form + python class of whatever a client method returned."""
     if resp is None:
@@ -248,7 +257,7 @@ def _invoke_ev(run, op, **kw):
 
 
 def _sync_unary(run, client, op):
-    fn = getattr(client, snake(op["method"]))
+    fn = client_method(client, op["method"])
     args, kwargs = run.build_call(op, False)
     _invoke_ev(run, op)
     try:
@@ -261,7 +270,7 @@ def _sync_unary(run, client, op):
 
 
 async def _async_unary(run, client, op):
-    fn = getattr(client, snake(op["method"]))
+    fn = client_method(client, op["method"])
     args, kwargs = run.build_call(op, True)
     _invoke_ev(run, op)
     try:
